@@ -93,6 +93,9 @@ counters!(
     replace_mid_planned,
     replace_mid_fired,
     replace_mid_fired_to_different_table,
+    replace_before_open_fired,
+    runs_stat_reports_empty,
+    runs_stat_reports_other_size,
     replace_between_ops,
     deny_ops,
     allow_ops,
@@ -219,6 +222,11 @@ pub struct RealDisk {
     pub pool_dir: PathBuf,
     current: Option<usize>,
     pub installs: u64,
+    /// What `stat` on the path reports in this run: 0 = the truth; 1 = an empty file (the way
+    /// pipes, /proc or FUSE files report size 0 although they have content); 2 = some other
+    /// image (a size that is simply stale). The seam keeps serving the true content.
+    pub stat_lies: u8,
+    n_pool: usize,
 }
 
 #[derive(Debug)]
@@ -234,6 +242,8 @@ impl RealDisk {
             pool_dir: pool_dir.to_path_buf(),
             current: None,
             installs: 0,
+            stat_lies: 0,
+            n_pool: 0,
         })
     }
 
@@ -257,7 +267,11 @@ impl RealDisk {
         if self.current == Some(idx) {
             return;
         }
-        let target = Self::pool_file(&self.pool_dir, idx);
+        let target = match self.stat_lies {
+            1 => self.pool_dir.join("empty.list"),
+            2 if self.n_pool > 1 => Self::pool_file(&self.pool_dir, (idx + 1 + idx % 3) % self.n_pool),
+            _ => Self::pool_file(&self.pool_dir, idx),
+        };
         let _ = std::fs::remove_file(&self.tmp);
         if let Err(e) = std::os::unix::fs::symlink(&target, &self.tmp) {
             std::panic::panic_any(HarnessError(format!("symlink {}: {e}", self.tmp.display())));
@@ -296,6 +310,7 @@ struct Armed {
     hard_i: usize,
     open_fail_done: bool,
     replace_done: bool,
+    replace_before_open_done: bool,
     persistent: Option<ErrKind>,
     opens: u32,
     bound: Vec<usize>,
@@ -361,6 +376,21 @@ impl World {
                     self.log.byte(b'D');
                     return Err(k.to_io().into());
                 }
+                // The updater wins the race against this very open call: whatever the loader
+                // learnt about the path before (its size, say) describes the previous file.
+                if let (Some(to), false) = (a.plan.replace_before_open, a.replace_before_open_done) {
+                    a.replace_before_open_done = true;
+                    let from = self.current;
+                    a.fired.replace = Some((from, to, 0));
+                    self.ctr.inc(C::replace_before_open_fired);
+                    self.log.byte(b'r');
+                    self.log.u64(to as u64);
+                    self.current = to;
+                    if let Some(r) = self.real.as_mut() {
+                        r.install(to);
+                    }
+                }
+                let a = self.armed.as_mut().unwrap();
                 a.bound.push(self.current);
             }
         }
@@ -605,6 +635,10 @@ pub fn install_quiet_panic_hook() {
             .map(|l| format!("{}:{}", l.file(), l.line()))
             .unwrap_or_default();
         LAST_PANIC.with(|p| *p.borrow_mut() = format!("{msg} at {loc}"));
+        if loc.contains("/sim/src/") || loc.starts_with("src/") {
+            // a panic in the harness itself is never silent
+            eprintln!("harness panic: {msg} at {loc}");
+        }
     }));
 }
 
@@ -661,11 +695,20 @@ impl Sim {
 
     /// Gives the next run its own path (see `RealDisk::begin_run`).
     pub fn begin_run(&mut self, tag: u64) {
+        self.begin_run_with(tag, 0)
+    }
+
+    pub fn begin_run_with(&mut self, tag: u64, stat_lies: u8) {
+        let bypass = self.bypass;
+        let n_pool = self.ctx.images.len();
         let mut w = self.world.borrow_mut();
         let w = &mut *w;
         match w.real.as_mut() {
             Some(r) => {
                 r.begin_run(tag);
+                // a loader that reads the real file must find the real content there
+                r.stat_lies = if bypass { 0 } else { stat_lies };
+                r.n_pool = n_pool;
                 w.sim_path = r.path.clone();
             }
             None => w.sim_path = PathBuf::from(format!("/simdisk/leap-seconds.{tag}.list")),
@@ -720,7 +763,7 @@ impl Sim {
     pub fn execute(&mut self, sc: &Scenario) -> RunResult {
         let ctx = self.ctx.clone();
         let mut trace: Vec<String> = Vec::new();
-        self.begin_run(sc.seed);
+        self.begin_run_with(sc.seed, sc.stat_lies);
         {
             let mut w = self.world.borrow_mut();
             w.log = Fnv::default();
@@ -729,6 +772,11 @@ impl Sim {
             w.armed = None;
             w.install(sc.initial);
             w.ctr.inc(C::runs);
+            match sc.stat_lies {
+                1 => w.ctr.inc(C::runs_stat_reports_empty),
+                2 => w.ctr.inc(C::runs_stat_reports_other_size),
+                _ => {}
+            }
             if sc.stratum.starts_with("bytesweep") {
                 w.ctr.inc(C::runs_bytesweep);
             } else if sc.stratum == "quiet" {
@@ -832,6 +880,7 @@ impl Sim {
                                     stratum: "thread".into(),
                                     n_clients: 1,
                                     initial: t.image,
+                                    stat_lies: 0,
                                     ops: vec![
                                         Op::Load {
                                             client: 0,
@@ -959,6 +1008,7 @@ impl Sim {
                             hard_i: 0,
                             open_fail_done: false,
                             replace_done: false,
+                            replace_before_open_done: false,
                             persistent: None,
                             opens: 0,
                             bound: Vec::new(),
